@@ -1,0 +1,5 @@
+//go:build !verif
+
+package leader
+
+func verifNote(e *kvElection, site string, val int64) {}
